@@ -275,6 +275,7 @@ func (g *declGen) group(name string, depth int) *GroupSpec {
 			}
 			if cfg.PtrGroups && len(sub.Opts) > 0 && r.Fork("ptrgroup").Chance(1, 3) {
 				sub.ViaPtr = true
+				sub.PtrSet = r.Fork("ptrset").Bool()
 			}
 			gs.Sub = append(gs.Sub, sub)
 		}
